@@ -49,6 +49,23 @@ Theorem caps_consistent :
 Proof. exact caps_consistent_lemma. Qed.
 Print Assumptions caps_consistent.
 
+Theorem request_tree_limits_are_request_local :
+  name_in [69;114;114;82;101;99;117;114;115;105;111;110;87;111;114;107;76;105;109;105;116] request_local_errors = true /\
+  name_in [69;114;114;82;101;115;111;108;117;116;105;111;110;65;116;116;101;109;112;116;76;105;109;105;116] request_local_errors = true /\
+  name_in [69;114;114;77;97;120;82;101;99;117;114;115;105;111;110] request_local_errors = true.
+Proof. exact request_local_errors_lemma. Qed.
+Print Assumptions request_tree_limits_are_request_local.
+
+(* configuration -> policy (MustRecursionWorkPolicyFromConfig): configured limits are the enforced ones *)
+Theorem configured_limits_are_the_policy : forall mt lims p, policy_of_config mt lims = Some p ->
+  (mt = 3 <-> p_mode p = mode_enforce) /\ (mt = 1 <-> p_mode p = mode_off) /\
+  (nth 0 lims 0 <> 0 -> p_max_out p = nth 0 lims 0) /\ (nth 1 lims 0 <> 0 -> p_max_int p = nth 1 lims 0) /\
+  (nth 2 lims 0 <> 0 -> p_max_key p = nth 2 lims 0) /\ (nth 3 lims 0 <> 0 -> p_max_rrsig p = nth 3 lims 0) /\
+  (nth 4 lims 0 <> 0 -> p_max_sig p = nth 4 lims 0) /\ (nth 5 lims 0 <> 0 -> p_max_ds p = nth 5 lims 0) /\
+  (nth 6 lims 0 <> 0 -> p_max_n3 p = nth 6 lims 0) /\ (nth 7 lims 0 <> 0 -> p_max_cc p = nth 7 lims 0).
+Proof. exact policy_of_config_lemma. Qed.
+Print Assumptions configured_limits_are_the_policy.
+
 (* ---- (i) the ledger.  For every number of threads, every list of debits per thread and EVERY
    schedule of the atomic steps (Load; compare, CompareAndSwap): in every reachable state, per kind,
    the counter equals the number of accepted debits and never passes the cap. *)
